@@ -514,8 +514,21 @@ func c13Run(t *testing.T, init int, hls0 uint32, depth int, choose func(step int
 					ws = append(ws, w.idx)
 				}
 				d := fmt.Sprintf("after %s: NewStream calls %v are parked while %d streams are open %v and MAX_CONCURRENT_STREAMS is %s; the transport is neither draining nor closed", ev, ws, len(led.open), led.openIDs(), c13LimStr(lim))
-				fail("C13", "waiter-not-admitted", "%s", d)
-				fail("C17", "newstream-parked-while-quota-free", "%s", d)
+				// Sub-class with its own canonical key: in this very step a call that had been
+				// parked returned with a local error although nobody cancelled it and the
+				// transport is healthy, i.e. it was woken by the freed quota, failed on its
+				// own, and the wake-up did not reach the calls that are still parked.
+				sub := ""
+				if ev.kind != "cancel" {
+					for _, c := range waiting {
+						if !stillWaiting(c) && c.err != nil && !c.cancelled {
+							sub = "/wakeup-consumed-by-locally-rejected-waiter"
+							d += fmt.Sprintf("; call #%d, parked until this step, returned %q in it", c.idx, c.err.Error())
+						}
+					}
+				}
+				fail("C13", "waiter-not-admitted"+sub, "%s", d)
+				fail("C17", "newstream-parked-while-quota-free"+sub, "%s", d)
 			}
 			// statistics: who woke the waiters
 			for _, c := range waiting {
@@ -633,7 +646,11 @@ func TestVerif_C13_MaxStreams(t *testing.T) {
 	for _, init := range []int{0, 1, 2, 3} {
 		cfgs = append(cfgs, c13Cfg{init: init, hls: c13HLSSmall})
 	}
-	rule := fmt.Sprintf("every event history of length %d (the oracle runs after every event, so all shorter histories are covered as prefixes) for each initial MAX_CONCURRENT_STREAMS in {none,0,1,2,3}, over the alphabet {newStream (async, <=%d calls), server trailers END_STREAM on the k-th open stream, server RST_STREAM on it, application Close(err) of it, ctx-cancel of the k-th parked NewStream, server SETTINGS(MAX_CONCURRENT_STREAMS in {0,1,2,3} != last advertised), server GOAWAY(2^31-1), transport Close}; plus every history of length %d for initial MAX_CONCURRENT_STREAMS in {0,1,2,3} with MAX_HEADER_LIST_SIZE=%d in the server preface, over the same alphabet extended by {newStream whose header list carries %d bytes of metadata (rejected locally while the advertised MAX_HEADER_LIST_SIZE is %d, sent while it is %d), server SETTINGS(MAX_HEADER_LIST_SIZE toggled between the two)}; inapplicable events pruned; real http2Client against a scripted raw server, one synctest bubble per history, run to quiescence after every event", depth, c13MaxCalls, depthHLS, c13HLSSmall, c13BigMD, c13HLSSmall, c13HLSLarge)
+	// oversize calls can park on quota only while the advertised limit is large
+	for _, init := range []int{1, 2} {
+		cfgs = append(cfgs, c13Cfg{init: init, hls: c13HLSLarge})
+	}
+	rule := fmt.Sprintf("every event history of length %d (the oracle runs after every event, so all shorter histories are covered as prefixes) for each initial MAX_CONCURRENT_STREAMS in {none,0,1,2,3}, over the alphabet {newStream (async, <=%d calls), server trailers END_STREAM on the k-th open stream, server RST_STREAM on it, application Close(err) of it, ctx-cancel of the k-th parked NewStream, server SETTINGS(MAX_CONCURRENT_STREAMS in {0,1,2,3} != last advertised), server GOAWAY(2^31-1), transport Close}; plus every history of length %d for initial (MAX_CONCURRENT_STREAMS, MAX_HEADER_LIST_SIZE) in {0,1,2,3}x{%d} and {1,2}x{1048576} in the server preface, over the same alphabet extended by {newStream whose header list carries %d bytes of metadata (rejected locally while the advertised MAX_HEADER_LIST_SIZE is %d, sent while it is %d), server SETTINGS(MAX_HEADER_LIST_SIZE toggled between the two)}; inapplicable events pruned; real http2Client against a scripted raw server, one synctest bubble per history, run to quiescence after every event", depth, c13MaxCalls, depthHLS, c13HLSSmall, c13BigMD, c13HLSSmall, c13HLSLarge)
 	r.Rule(P, rule+"; non-trivial = a history in which a NewStream call was parked at some quiescent point, the limit was lowered below the open count, or a call was rejected locally for its header list size")
 	r.Rule(Q, rule+"; non-trivial = a history in which a parked NewStream call was woken (by a stream close or a SETTINGS raise) or released (ctx cancel, GOAWAY, Close)")
 	for _, p := range []string{P, Q} {
@@ -649,6 +666,10 @@ func TestVerif_C13_MaxStreams(t *testing.T) {
 		}
 		for _, f := range res.fails {
 			key := fmt.Sprintf("%s|init=%s|%s", f.class, cfg, strings.Join(res.events, ","))
+			if strings.HasSuffix(f.class, "/wakeup-consumed-by-locally-rejected-waiter") {
+				// one canonical key per property: every history of this shape shows the same thing
+				key = f.class
+			}
 			r.Violation(f.prop, key, fmt.Sprintf("%s\n  initial MAX_CONCURRENT_STREAMS=%s history: %s\n  client frames: %s", f.desc, cfg, strings.Join(res.events, ","), res.log),
 				c13Replay{Init: cfg.init, HLS: cfg.hls, Choices: append([]int(nil), o.path[:min(len(o.path), res.steps)]...), Events: res.events})
 		}
